@@ -258,7 +258,7 @@ PROPS["C25"] = dict(
     note="Semantic crashes deeper inside a handler are outside this rule. Trusted: rowan's documented preconditions, the source/guard tables in rules/c25.py.")
 
 PROPS["C40"] = dict(
-    module="c40", func="run", level="other", crates=["schema_to_emmylua"],
+    module="c40", func="run", level="other", crates=["schema_to_emmylua", "emmylua_parser"],
     technique="panic-surface audit + fmt-template decoding from MIR with provenance/sanitiser analysis of values in quoted positions + who-may-write",
     text="Decides two clauses: the converter has no undischarged panic site, and every schema-derived string placed inside double "
          "quotes or on a one-line `# ` comment of the generated annotations passes a sanitiser that handles quote, backslash and "
